@@ -29,3 +29,4 @@ import Mahotas.Proofs.CScalarTies.Find2dAcc
 import Mahotas.Proofs.CScalarTies.Spline
 import Mahotas.Proofs.CScalarTies.CurRank
 import Mahotas.Proofs.CScalarTies.DtIntersect
+import Mahotas.Proofs.CScalarTies.FastPositions
